@@ -9,6 +9,8 @@ import (
 	"bytes"
 	"context"
 	"fmt"
+	"net"
+	"net/http"
 	"os"
 	"path/filepath"
 	"strings"
@@ -374,6 +376,75 @@ func TestVerif_C10(t *testing.T) {
 			ep.Close()
 		} else {
 			rep.Note("wrong CAR rejected at load: %v", err)
+		}
+	}
+	// ---- a CAR with the same root CID in which two equal-length sections are exchanged (no load-time check can
+	// notice): every fetch by CID must fail or return that CID's own bytes, from a local file AND through a ReaderAt
+	{
+		carA, _ := os.ReadFile(A.Car)
+		objs := truths[0].Objects
+		swapped := false
+		var i1, i2 int
+		for i := 0; i < len(objs) && !swapped; i++ {
+			for j := i + 1; j < len(objs); j++ {
+				if objs[i].SecLen == objs[j].SecLen && objs[i].Cid != objs[j].Cid {
+					i1, i2, swapped = i, j, true
+					break
+				}
+			}
+		}
+		if !swapped {
+			rep.Note("no two sections of equal length in this epoch: swapped-sections CAR not exercised")
+		} else {
+			mod := append([]byte(nil), carA...)
+			copy(mod[objs[i1].Offset:objs[i1].Offset+objs[i1].SecLen], carA[objs[i2].Offset:objs[i2].Offset+objs[i2].SecLen])
+			copy(mod[objs[i2].Offset:objs[i2].Offset+objs[i2].SecLen], carA[objs[i1].Offset:objs[i1].Offset+objs[i1].SecLen])
+			swPath := filepath.Join(work, "swapped.car")
+			_ = os.WriteFile(swPath, mod, 0o644)
+			uris := map[string]string{"file": swPath}
+			if ln, err := net.Listen("tcp", "127.0.0.1:0"); err == nil {
+				srv := &http.Server{Handler: http.FileServer(http.Dir(work))}
+				go srv.Serve(ln)
+				defer srv.Close()
+				uris["readerat"] = fmt.Sprintf("http://%s/swapped.car", ln.Addr().String())
+			} else {
+				rep.Note("loopback listen failed: swapped-sections CAR only through the local file path")
+			}
+			for mode, uri := range uris {
+				tr := &vfxTruth{Spec: vfxSpec{Epoch: 2}, GsfaDir: "", Paths: IndexPaths{CidToOffsetAndSize: A.C2o, SlotToCid: A.S2c, SignatureToCid: A.G2c, SignatureExists: A.Sx, SlotToBlocktime: A.Bt}}
+				cfgPath := filepath.Join(work, "swapped-"+mode+".yml")
+				_ = os.WriteFile(cfgPath, []byte(vfxConfigYaml(tr, uri)), 0o644)
+				ep, err := vfxLoadConfigFile(cfgPath, vfxNewCache())
+				if err != nil {
+					rep.Note("swapped-sections CAR (%s) rejected at load: %v", mode, err)
+					continue
+				}
+				wrong, failed, right := 0, 0, 0
+				for _, o := range objs {
+					got, gerr := ep.GetNodeByCid(context.Background(), vfxCidFromHex(o.Cid))
+					rep.Case("swapped/"+mode+"/"+o.Cid, true)
+					if gerr != nil {
+						failed++
+						continue
+					}
+					want := carA[o.Offset+o.SecLen-vc01DataLenC10(carA, o) : o.Offset+o.SecLen]
+					if bytes.Equal(got, want) {
+						right++
+					} else {
+						wrong++
+					}
+				}
+				rep.CountN("swapped-sections "+mode+": fetches failed", failed)
+				rep.CountN("swapped-sections "+mode+": fetches right", right)
+				if wrong > 0 {
+					rep.Fail("wrong-car-returns-other-bytes:"+mode, fmt.Sprintf("CAR with two exchanged sections, served as %s: %d fetches by CID returned the bytes of ANOTHER object", mode, wrong),
+						map[string]interface{}{"mode": mode, "exchanged_objects": []int{i1, i2}})
+				}
+				if failed != 2 {
+					rep.Note("swapped-sections %s: %d fetches failed (expected exactly the 2 exchanged objects)", mode, failed)
+				}
+				ep.Close()
+			}
 		}
 	}
 	// ---- metadata codec
